@@ -233,8 +233,14 @@ class ndpoly(numpy.ndarray):  # pylint: disable=invalid-name
     ) -> Any:
         """Dispatch method for operators."""
         if method == "reduce":
+            if ufunc not in REDUCE_MAPPINGS:
+                raise FeatureNotSupported(f"reduce of ufunc '{ufunc}' not supported.")
             ufunc = REDUCE_MAPPINGS[ufunc]
         elif method == "accumulate":
+            if ufunc not in ACCUMULATE_MAPPINGS:
+                raise FeatureNotSupported(
+                    f"accumulate of ufunc '{ufunc}' not supported."
+                )
             ufunc = ACCUMULATE_MAPPINGS[ufunc]
         elif method != "__call__":
             raise FeatureNotSupported(f"Method '{method}' not supported.")
